@@ -162,16 +162,23 @@ def check_case(case, opts):
         def loc_of(p):
             i = img.paths[p]
             return (i.blocks_start if any(i.block_sizes) else None, tuple(i.block_sizes), i.frag_idx, i.frag_off if i.frag_idx != sqfsimg.NOFRAG else None)
+        tail_of = {p: (c[len(c) // B * B:] if len(c) % B else b"") for p, c in contents.items()}
         for c, ps in byc.items():
             if len(ps) < 2 or len(c) == 0:
                 continue
             locs = {p: loc_of(p) for p in ps}
+            # files outside the group whose tail end has the same bytes as these (short) files are sharing partners as well
+            ext = [q for q in contents if q not in ps and len(c) < B and tail_of[q] == c]
+            if not any(p in flagged for p in ps + ext):
+                if len(set(locs.values())) > 1:
+                    raise Violation("identical files %r do not share storage: %r" % (ps[:3], sorted(set(locs.values()), key=repr)[:3]), None, sig="dedup-missing")
+                continue
             # Files with per-file flags (dont_deduplicate, dont_compress, dont_fragment, nosparse) are legitimately stored on their own
             # or in another form; a later unflagged twin may share with them or with an unflagged one.  So among the unflagged files
-            # of a group at most one (the first one packed in its storage form) may sit at a location nobody else of the group uses.
-            lonely = [p for p in ps if p not in flagged and sum(1 for q in ps if q != p and locs[q] == locs[p]) == 0]
-            if not any(p in flagged for p in ps) and len(set(locs.values())) > 1:
-                raise Violation("identical files %r do not share storage: %r" % (ps[:3], sorted(set(locs.values()), key=repr)[:3]), None, sig="dedup-missing")
+            # of a group at most one (the first one packed in its storage form) may sit at a location nobody else uses.
+            fl = {q: (img.paths[q].frag_idx, img.paths[q].frag_off) for q in ext if img.paths[q].frag_idx != sqfsimg.NOFRAG}
+            lonely = [p for p in ps if p not in flagged and not any(q != p and locs[q] == locs[p] for q in ps)
+                      and not (locs[p][0] is None and (locs[p][2], locs[p][3]) in fl.values())]
             if len(lonely) > 1:
                 raise Violation("identical files %r do not share storage: %r" % (sorted(lonely)[:3], sorted((locs[p] for p in lonely), key=repr)[:3]), None, sig="dedup-missing")
         # how many collisions did the weak checksum really force?
